@@ -2,6 +2,7 @@
 package toksim
 
 import (
+	"bytes"
 	"encoding/base64"
 	"fmt"
 	"strings"
@@ -18,6 +19,7 @@ import (
 type issued struct {
 	token   string
 	secret  int
+	key     []byte // the issuing secret's bytes at issue time (the caller may overwrite its buffer later)
 	server  string
 	user    string
 	at      time.Time
@@ -104,11 +106,23 @@ func body(r *sim.Run) {
 	nops := t.Range(3, 8)
 	for i := 0; i < nops && !r.Failed(); i++ {
 		r.Op()
-		op := t.Weighted([]int{3, 4, 5, 3, 1})
+		op := t.Weighted([]int{3, 4, 5, 3, 1, 1})
 		if len(toks) == 0 {
 			op = 0
 		}
 		switch op {
+		case 5: // the server replaces a key by overwriting the buffer that holds it
+			si := t.Intn(nsec)
+			nb := t.Bytes(len(secrets[si]))
+			for j := range secrets {
+				if bytes.Equal(secrets[j], nb) {
+					nb[0] ^= 0x55
+				}
+			}
+			copy(secrets[si], nb)
+			r.Fault("key_replaced_in_place")
+			r.Nontriv = true
+			r.Logf("t=%v secret %d overwritten in place", r.Now(), si)
 		case 0: // issue
 			si := t.Intn(nsec)
 			u := sim.Pick(t, users)
@@ -121,7 +135,7 @@ func body(r *sim.Run) {
 			if err != nil {
 				r.Violate("C20", "issue", "error", "GenerateLoginToken failed: %v", err)
 			}
-			toks = append(toks, &issued{token: tok, secret: si, server: servers[si], user: u, at: time.Now(), life: life(d)})
+			toks = append(toks, &issued{token: tok, secret: si, key: append([]byte{}, secrets[si]...), server: servers[si], user: u, at: time.Now(), life: life(d)})
 			r.Logf("t=%v issue #%d secret=%d user=%s dur=%d", r.Now(), len(toks)-1, si, u, d)
 		case 1: // advance the clock around a token's lifetime
 			tk := sim.Pick(t, toks)
@@ -157,7 +171,7 @@ func body(r *sim.Run) {
 			lifeD := time.Duration(tk.life) * time.Second
 			r.Logf("t=%v validate #%d secret=%d user=%s age=%v life=%ds -> %v", r.Now(), idx, si, u, age, tk.life, err)
 			switch {
-			case si != tk.secret:
+			case !bytes.Equal(secrets[si], tk.key):
 				r.Check(err != nil, "C20", "wrong_secret", "accepted", "token #%d issued under secret %d validated under secret %d", idx, tk.secret, si)
 				r.Nontriv = true
 			case u != tk.user:
@@ -204,12 +218,12 @@ func checkAltered(r *sim.Run, idx int, tk *issued, secrets [][]byte) {
 	r.Nontriv = true
 	// An altered token must be refused under the issuing secret for the
 	// issuing user at any instant (and a fortiori for anything else).
-	err := tokens.ValidateToken(tokens.TokenOptions{ServerPrivateKey: secrets[tk.secret], ServerName: tk.server, UserID: tk.user}, tk.token)
+	err := tokens.ValidateToken(tokens.TokenOptions{ServerPrivateKey: tk.key, ServerName: tk.server, UserID: tk.user}, tk.token)
 	r.Logf("t=%v validate altered #%d (%s) age=%v -> %v", r.Now(), idx, tk.how, time.Since(tk.at), err)
 	r.Check(err != nil, "C20", "altered", strings.SplitN(tk.how, ":", 2)[0], "altered token (%s) accepted", tk.how)
 	if strings.HasPrefix(tk.how, "caveat_user") {
 		victim := strings.SplitN(tk.how, ":", 2)[1]
-		err := tokens.ValidateToken(tokens.TokenOptions{ServerPrivateKey: secrets[tk.secret], ServerName: tk.server, UserID: victim}, tk.token)
+		err := tokens.ValidateToken(tokens.TokenOptions{ServerPrivateKey: tk.key, ServerName: tk.server, UserID: victim}, tk.token)
 		r.Check(err != nil, "C20", "altered", "caveat_user_victim", "token for %s with appended user_id caveat validates for %s", tk.user, victim)
 	}
 	if strings.HasPrefix(tk.how, "caveat_") {
@@ -240,7 +254,7 @@ func encode(m *macaroon.Macaroon) string {
 
 func alter(r *sim.Run, src *issued, secrets [][]byte) *issued {
 	t := r.T
-	nt := &issued{secret: src.secret, server: src.server, user: src.user, at: src.at, life: src.life, altered: true}
+	nt := &issued{secret: src.secret, key: src.key, server: src.server, user: src.user, at: src.at, life: src.life, altered: true}
 	kind := t.Intn(11)
 	switch kind {
 	case 10: // minted under the right secret with a near miss in place of one required caveat
@@ -249,7 +263,7 @@ func alter(r *sim.Run, src *issued, secrets [][]byte) *issued {
 			return nil
 		}
 		which := t.Intn(3)
-		m, err := macaroon.New(secrets[src.secret], o.Id(), o.Location(), macaroon.V2)
+		m, err := macaroon.New(src.key, o.Id(), o.Location(), macaroon.V2)
 		if err != nil {
 			return nil
 		}
@@ -348,6 +362,9 @@ func alter(r *sim.Run, src *issued, secrets [][]byte) *issued {
 			return nil
 		}
 		other := (src.secret + 1) % len(secrets)
+		if bytes.Equal(secrets[other], src.key) {
+			return nil
+		}
 		m, err := macaroon.New(secrets[other], o.Id(), o.Location(), macaroon.V2)
 		if err != nil {
 			return nil
@@ -363,7 +380,7 @@ func alter(r *sim.Run, src *issued, secrets [][]byte) *issued {
 			return nil
 		}
 		drop := t.Intn(len(o.Caveats()))
-		m, err := macaroon.New(secrets[src.secret], o.Id(), o.Location(), macaroon.V2)
+		m, err := macaroon.New(src.key, o.Id(), o.Location(), macaroon.V2)
 		if err != nil {
 			return nil
 		}
